@@ -144,14 +144,22 @@ FinishCls ==
   /\ pc' = "done"
   /\ UNCHANGED <<scn, cq, cs, cached, created, work, memo, gs, ops, claims, ex, tl>>
 
+\* "leaf" scenarios with after = "fail": an earlier remote_pickle.loads on this thread raised - context.__exit__
+\* with an exception deletes nothing, the thread-local keeps stack / iter / unused
+PriorFail ==
+  /\ pc = "scan" /\ scn.t = "leaf" /\ scn.after = "fail" /\ ~tl[1].has
+  /\ tl' = [tl EXCEPT ![1] = [stack |-> <<>>, iter |-> -1, unused |-> TRUE, has |-> TRUE]]
+  /\ UNCHANGED <<scn, pc, cq, cs, cached, created, res0, work, memo, gs, ops, claims, ex>>
+\* the round trip: context.__init__ resets the thread-local whatever it finds, __exit__ deletes stack and iter
 FinishLeaf ==
-  /\ pc = "scan" /\ scn.t = "leaf"
+  /\ pc = "scan" /\ scn.t = "leaf" /\ (scn.after = "fail" => tl[1].has)
   /\ LET path == ImplPath(scn.kind, FALSE)
          fails == path # StdPath(scn.kind) /\ ~scn.fb     \* object.__reduce_ex__ cannot pickle the type
      IN res0' = [outcome |-> IF fails THEN "raised:TypeError" ELSE "ok", eq |-> IF fails THEN "F" ELSE "T",
                  path |-> path]
   /\ pc' = "done"
-  /\ UNCHANGED <<scn, cq, cs, cached, created, work, memo, gs, ops, claims, ex, tl>>
+  /\ tl' = [tl EXCEPT ![1] = [stack |-> <<>>, iter |-> -1, unused |-> TRUE, has |-> FALSE]]
+  /\ UNCHANGED <<scn, cq, cs, cached, created, work, memo, gs, ops, claims, ex>>
 
 (* ================================ (iii) dump ================================ *)
 Node(i) == scn.g[i]
@@ -293,7 +301,7 @@ LoadsDone ==
   /\ pc' = "done"
   /\ UNCHANGED <<scn, cq, cs, cached, created, res0, work, memo, gs, ops, claims, ex, tl>>
 
-Next == ScanOne \/ DumpScan \/ FinishCls \/ FinishLeaf \/ DumpStep \/ DumpDone
+Next == ScanOne \/ DumpScan \/ FinishCls \/ PriorFail \/ FinishLeaf \/ DumpStep \/ DumpDone
         \/ (\E e \in 1..(2 * K) : Start(e) \/ Step(e)) \/ LoadsDone
 Spec == Init /\ [][Next]_vars /\ WF_vars(Next)
 
@@ -310,8 +318,8 @@ ExObs(e) == IF ex[e].out # "ok" THEN [outcome |-> ex[e].out, top |-> "none", nod
 StdRest == [i \in 1..NG |-> BaseEnt(scn, i, "L")]
 GraphObs == [dump |-> "ok", gs |-> gs,
              loads |-> [k \in 1..K |-> ExObs(k)], fresh |-> [k \in 1..K |-> ExObs(K + k)],
-             equal_to_pickle |-> IF scn.op # "rp" \/ scn.loads[1].patch # <<>> \/ scn.loads[1].fail # "none" THEN "na"
-                                 ELSE IF ex[1].out = "ok" /\ ex[1].rest = StdRest THEN "T" ELSE "F"]
+             equal_to_pickle |-> IF scn.op # "rp" \/ scn.loads[K].patch # <<>> \/ scn.loads[K].fail # "none" THEN "na"
+                                 ELSE IF ex[K].out = "ok" /\ ex[K].rest = StdRest THEN "T" ELSE "F"]
 Obs == CASE scn.t = "cls"  -> [created |-> created, outcome |-> res0.outcome, gslog |-> res0.gslog, equal_to_pickle |-> res0.eq]
          [] scn.t = "leaf" -> [outcome |-> res0.outcome, equal_to_pickle |-> res0.eq]
          [] OTHER          -> GraphObs
@@ -357,6 +365,8 @@ R_Failure      == Terminal /\ scn.t = "graph" /\ \E e \in 1..K : ex[e].out = "ra
 R_Residue      == pc = "load" /\ \E e \in 2..K : CanStart(e) /\ tl[Thr(e)].has /\ tl[Thr(e)].stack # <<>>
 R_Concurrency  == pc = "load" /\ K >= 2 /\ ex[1].st = "run" /\ ex[2].st = "run" /\ ex[1].pos > 1 /\ ex[2].pos > 1
 R_MemoGet      == pc = "dump" /\ work # <<>> /\ Head(work).a = "v" /\ Head(work).n \in memo /\ Node(Head(work).n).kind = "opt"
+R_AfterFail    == pc = "scan" /\ scn.t = "leaf" /\ tl[1].has
+R_Falsy        == Terminal /\ scn.t = "graph" /\ \E i \in 1..NG : scn.g[i].fs # "no" /\ ex[1].ssn[i] = 1
 R_StdPath      == Terminal /\ scn.t = "graph" /\ scn.op = "rp" /\ ~UsesRR /\ OptNodes(scn) # {}
 W_Warning == ~R_Warning
 W_Siblings == ~R_Siblings
@@ -366,6 +376,7 @@ WitDump == /\ Wit("Warning", R_Warning) /\ Wit("DumpWarning", R_DumpWarning) /\ 
            /\ Wit("StdOp", R_StdOp) /\ Wit("Copyreg", R_Copyreg) /\ Wit("Siblings", R_Siblings)
            /\ Wit("PatchDelivered", R_PatchDelivered) /\ Wit("Failure", R_Failure) /\ Wit("Residue", R_Residue)
            /\ Wit("Concurrency", R_Concurrency) /\ Wit("MemoGet", R_MemoGet) /\ Wit("StdPath", R_StdPath)
+           /\ Wit("AfterFail", R_AfterFail) /\ Wit("Falsy", R_Falsy)
 
 \* ---- every terminal state as a case for the replay on the real code ----
 CaseDump == Terminal => PrintT(<<"CASE", ToJson(Rec)>>)
